@@ -3,6 +3,7 @@
 package pebbledb
 
 import (
+	"github.com/BlackVectorOps/semantic_firewall/v3/pkg/analysis/topology"
 	"github.com/BlackVectorOps/semantic_firewall/v3/pkg/detection"
 )
 
@@ -14,8 +15,11 @@ func VerifC05_StoreRoundTrip() {
 	topo := vxPoolTopo(k)
 	topo.CallSignatures["net.Dial"] = 1
 	topo.StringLiterals = []string{"\"beacon\"", "ab"}
-	if vxBool() { // an unrelated signature is already present
+	if vxBool() { // another signature is already present; it may share this function's real hashes
 		other := vxSig(vxID())
+		th, fh := detection.GenerateTopologyHash(topo), topology.GenerateFuzzyHash(topo)
+		other.TopologyHash = vxSelStr([]string{th, vxTopoHash(1 - k)}, vxIntRange(0, 1))
+		other.FuzzyHash = vxSelStr([]string{"", fh, vxFuzzyHash(1 - k)}, vxIntRange(0, 2))
 		s.AddSignature(&other)
 	}
 	sig := detection.IndexFunction(topo, "sig", "d", "HIGH", "c")
